@@ -1,9 +1,12 @@
 #!/bin/bash
 # tools/mutant_run.sh <patch-file> <ID> [<ID>...]   — run checks against a scratch worktree of /repo with a patch applied.
-# Never touches /repo's working tree. Keeps /tmp/mut-target for incremental builds; removes the worktree afterwards.
+# Never touches /repo's working tree. Keeps /tmp/mut$MUT_ID-target for incremental builds; removes the worktree afterwards.
+# MUT_ID (optional) makes the scratch paths private, so several runs can go on at the same time.
+# TIER=quick|thorough, LINES_MAX = output lines per check.
 set -u
 PATCH="$1"; shift
-WT=/tmp/mut-wt; MC=/tmp/mut-mc; ROOT=/tmp/mut-root; TGT=/tmp/mut-target
+S="${MUT_ID:-}"
+WT=/tmp/mut$S-wt; MC=/tmp/mut$S-mc; ROOT=/tmp/mut$S-root; TGT=/tmp/mut$S-target
 git -C /repo worktree remove --force $WT >/dev/null 2>&1
 rm -rf $WT $MC $ROOT
 git -C /repo worktree add -q --detach $WT HEAD || exit 2
@@ -12,9 +15,9 @@ mkdir -p $ROOT/.build && cp /verif/known_findings.json $ROOT/ && cp /verif/.buil
 cp -r /verif/mc $MC
 sed -i "s#/repo/#$WT/#g" $MC/Cargo.toml $MC/src/*.rs $MC/src/*/*.rs
 rm -rf $MC/.cargo
-if ! ( cd $MC && CARGO_TARGET_DIR=$TGT cargo build --release --offline 2>&1 | grep -E "^error" -A10 | head -30; exit ${PIPESTATUS[0]} ); then echo "BUILD FAILED"; git -C /repo worktree remove --force $WT; exit 2; fi
+if ! ( cd $MC && CARGO_TARGET_DIR=$TGT cargo build --release --offline 2>&1 | grep -E "^error" -A10 | head -30; exit ${PIPESTATUS[0]} ); then echo "BUILD FAILED"; git -C /repo worktree remove --force $WT; rm -rf $MC $ROOT; exit 2; fi
 for id in "$@"; do
   VERIF_ROOT=$ROOT $TGT/release/mc $id ${TIER:-quick} 2>&1 | grep -E "^VIOLATION|signature:|^$id |^KNOWN|MACHINERY" | cut -c1-300 | head -${LINES_MAX:-12}
 done
 git -C /repo worktree remove --force $WT
-rm -rf $MC
+rm -rf $MC $ROOT
